@@ -154,7 +154,7 @@ def do_new(op):
     th = e['thermos'][pkg]
     if len(flows) == 1:
         return tmo.Stream(None, flow=np.array(flows[0], float), phase=phases, T=T, P=P, thermo=th)
-    return tmo.MultiStream(None, flow=np.array(flows, float), phases=tuple(phases), T=T, P=P, thermo=th)
+    return tmo.MultiStream(None, flow=[[float(x) for x in r] for r in flows], phases=tuple(phases), T=T, P=P, thermo=th)
 
 def pkg_of(s):
     return s._thermo.mixture.pkg
@@ -170,6 +170,7 @@ def resolve(objs, op):
     if k == 'new':
         return list(op), lambda: do_new(op)
     n = len(objs)
+    if n == 0: return ['nop'], lambda: None
     i = op[1] % n
     s = objs[i]
     if k == 'read':
@@ -185,7 +186,7 @@ def resolve(objs, op):
     if k == 'fmol': return [k, i, op[2]], lambda: setattr(s, 'F_mol', s.F_mol * op[2])
     if k == 'empty': return [k, i], lambda: s.empty()
     if k == 'proxy':
-        if is_multi(s) or isinstance(s, tmo.MultiStream) or not hasattr(s, 'equations'): return ['nop'], lambda: None
+        if is_multi(s) or isinstance(s, tmo.MultiStream) or not hasattr(s, 'equations'): return ['nop'], lambda: s.proxy()
         return [k, i], lambda: s.proxy()
     if k == 'flow_proxy': return [k, i], lambda: s.flow_proxy()
     if k == 'copy': return [k, i], lambda: s.copy()
@@ -195,7 +196,7 @@ def resolve(objs, op):
     if k == 'unlink': return [k, i], lambda: s.unlink()
     if k == 'copy_like':
         j = op[2] % n; t = objs[j]
-        if is_multi(s) or is_multi(t) or not same_chem(s, t): return ['nop'], lambda: None
+        if is_multi(s) or is_multi(t) or not same_chem(s, t): return ['nop'], lambda: s.copy_like(t)
         return [k, i, j], lambda: s.copy_like(t)
     if k == 'copy_tc':
         j = op[2] % n
@@ -205,24 +206,25 @@ def resolve(objs, op):
         return [k, i, j], lambda: s.copy_phase(objs[j])
     if k == 'mix':
         js = [x % n for x in op[2]]
-        if is_multi(s) or any(is_multi(objs[x]) or not same_chem(s, objs[x]) for x in js): return ['nop'], lambda: None
-        live = [x for x in js if not objs[x].isempty()]
         energy = op[3]
         def act():
             s.mix_from([objs[x] for x in js], energy_balance=energy)
+        if is_multi(s) or any(is_multi(objs[x]) or not same_chem(s, objs[x]) for x in js): return ['nop'], act
+        live = [x for x in js if not objs[x].isempty()]
         if len(live) == 0: return ['empty', i], act
         if len(live) == 1: return (['copy_like', i, live[0]] if energy else ['copy_flow', i, live[0]]), act
         return ['mix', i, live, energy, None], act       # T filled in after the call
     if k == 'view': return [k, i, op[2]], lambda: s[op[2]]
     if k == 'setphases':
         ps = sorted(set(op[2]), key=lambda c: PH[c])
-        if not is_multi(s) and len(ps) > 1 and s.phase not in ps: return ['nop'], lambda: None
+        if not is_multi(s) and len(ps) > 1 and s.phase not in ps: return ['nop'], lambda: setattr(s, 'phases', op[2])
         return [k, i, ''.join(ps)], lambda: setattr(s, 'phases', op[2])
     if k == 'reset_cache': return [k, i], lambda: s.reset_cache()
     if k == 'reset_thermo':
         th = e['thermos'][op[2]]
         if th is s._thermo: return ['nop'], lambda: None
-        if is_multi(s) and any(p not in s.phases for p in getattr(s, '_streams', {})): return ['nop'], lambda: None
+        if is_multi(s) and (any(p not in s.phases for p in getattr(s, '_streams', {})) or len(s.phases) > len(s._imol.data.rows)):
+            return ['nop'], lambda: s._reset_thermo(th)
         return ['setpkg', i, op[2]], lambda: s._reset_thermo(th)
     raise ValueError(k)
 
@@ -254,6 +256,9 @@ def run_impl(case):
     objs, res_ops, obs = [], [], []
     for op in case['ops']:
         rop, act = resolve(objs, op)
+        if rop[0] == 'nop':
+            res_ops.append(rop); obs.append(['ok'])
+            continue
         try:
             r = act()
         except Exception as ex:
@@ -338,7 +343,7 @@ def coq_case(case, out):
 def coq_show(case, out):
     ops = clist([cop(o) for o in out['ops']])
     return (f'(let (w, bs) := run stub_calc1 stub_calcx {cbool(SHARED)} w0 {ops} in '
-            f'(bs, map (snap_of w) (seq 0 (length (objs (w_st w))))))')
+            f'(bs, map (snap_of w) (seq O (length (objs (w_st w))))))')
 
 def nontrivial(case, out):
     seen_mut = False
@@ -364,7 +369,7 @@ def fresh_like(s):
     tmo = env()['tmo']
     if is_multi(s):
         data = np.array([r.to_array() for r in s._imol.data.rows], float)
-        return tmo.MultiStream(None, flow=data, phases=tuple(s._imol._phases), T=s.T, P=s.P, thermo=s._thermo)
+        return tmo.MultiStream(None, flow=[[float(x) for x in r] for r in data], phases=tuple(s._imol._phases), T=s.T, P=s.P, thermo=s._thermo)
     return tmo.Stream(None, flow=s._imol.data.to_array(), phase=s.phase, T=s.T, P=s.P, thermo=s._thermo)
 
 def close(a, b, tol=1e-9):
